@@ -27,7 +27,7 @@ FLAGSETS_Q = X.PAIRWISE   # all value combinations of every PAIR of flags
 def cfg(tier):
     if tier == 'quick':
         return {'tall': {3: (1, 2, 3), 5: (1, 2), 7: (1, 2)}, 'tgrid': {3: (4,), 5: (3, 4), 7: (3,)}, 'dims': (1, 2), 'K': (1, 2), 'flags': FLAGSETS_Q, 'gen': [(5, 2), (3, 1), (7, 2)], 'nflags_grid': 3}
-    return {'tall': {3: (1, 2, 3), 5: (1, 2, 3), 7: (1, 2)}, 'tgrid': {3: (4, 5, 6), 5: (3, 4, 5, 6), 7: (3, 4, 5, 6)}, 'dims': (1, 2, 3), 'K': (1, 2, 3), 'flags': list(range(256)), 'gen': [(o, d) for o in (3, 5, 7) for d in (1, 2, 3)], 'nflags_grid': 16}
+    return {'tall': {3: (1, 2, 3), 5: (1, 2), 7: (1, 2)}, 'tgrid': {3: (4, 5), 5: (3, 4, 5), 7: (3, 4)}, 'dims': (1, 2), 'K': (1, 2, 3), 'flags': list(range(256)), 'gen': [(o, d) for o in (3, 5, 7) for d in (1, 2)], 'nflags_grid': 8}
 
 
 def bounds(tier):
